@@ -114,6 +114,20 @@ def run(ctx):
       except Exception as e:
         ctx.count('code_validity', 1)
         ctx.violation('C09 combining valid codes %s and %s raised %s: %s' % (n1, n2, type(e).__name__, e), {'codes': [n1, n2], 'built_before': [b[0] for b in base]})
+    # a code obtained earlier and then modified in place (+=, *=) must not influence what the constructors return afterwards
+    ctors = [('jordan_wigner_code(%d)', bc.jordan_wigner_code), ('bravyi_kitaev_code(%d)', bc.bravyi_kitaev_code), ('parity_code(%d)', bc.parity_code)]
+    for n in (2, 3, 4):
+        for fmt, mk_ in ctors:
+            try:
+                first = mk_(n); first += bc.parity_code(2)
+                second = mk_(n); second *= bc.jordan_wigner_code(second.n_qubits)
+                third = mk_(n); third *= 2
+                fresh = mk_(n)
+                if fresh.n_modes != n: raise ValueError('constructor returns a code on %d modes' % fresh.n_modes)
+                exprs.append((fmt % n + ' after in-place use of earlier instances', fresh, dom_all(n)))
+            except Exception as e:
+                ctx.count('code_validity', 1)
+                ctx.violation('C09 %s requested after earlier instances were modified in place: %s: %s' % (fmt % n, type(e).__name__, e), {'call': fmt % n})
     for name, code, dom in exprs:
         if code.n_modes > 12 or len(dom) > 1100: continue
         rows = rows_of(code)
